@@ -58,6 +58,8 @@ func (c Case) scenario(noFormat bool) imps.Scenario {
 		op("ImportAlias", "x.y/dotted", ".")
 	case "guessc":
 		others = []string{"x.y/c", "q.r/C"}
+	case "sortsbefore": // paths that sort before "C"
+		others = []string{"9fans.net/go/acme", "A/b", "-x/y", "B"}
 	}
 	if c.Prefix != "" {
 		op("PackagePrefix", c.Prefix)
@@ -322,7 +324,7 @@ func TestC19(t *testing.T) {
 				if intro == "preamble" && len(pre) == 0 {
 					continue
 				}
-				for _, others := range []string{"none", "one", "many", "aliased", "anon", "dot", "guessc"} {
+				for _, others := range []string{"none", "one", "many", "aliased", "anon", "dot", "guessc", "sortsbefore"} {
 					for _, prefix := range []string{"", "pkg"} {
 						for _, hint := range []string{"none", "nameC", "aliasC", "dotC", "underC", "otherC"} {
 							for _, first := range []bool{true, false} {
@@ -357,7 +359,7 @@ func TestC19(t *testing.T) {
 	hx.Rapid(r, t, hx.Check[Case]{Name: "cgo_random_text", Fn: check}, r.N(300, 6000), func(rt *rapid.T) Case {
 		c := Case{
 			Intro:  rapid.SampledFrom([]string{"qual", "anon", "qual+anon", "preamble"}).Draw(rt, "intro"),
-			Others: rapid.SampledFrom([]string{"none", "one", "many", "aliased", "anon", "dot", "guessc"}).Draw(rt, "others"),
+			Others: rapid.SampledFrom([]string{"none", "one", "many", "aliased", "anon", "dot", "guessc", "sortsbefore"}).Draw(rt, "others"),
 			Prefix: rapid.SampledFrom([]string{"", "pkg", "_"}).Draw(rt, "prefix"),
 			Hint:   rapid.SampledFrom([]string{"none", "nameC", "aliasC", "dotC", "underC", "otherC"}).Draw(rt, "hint"),
 			CFirst: rapid.Bool().Draw(rt, "first"),
